@@ -95,6 +95,10 @@ def c12_r1(ctx):
                 continue
             # the key inserted is the target string of this iteration of a complete loop over rule.targets
             tl = [lp for lp in lps if any(("field", "targets") in o for o in lp["iter"])]
+            if not tl and guard.bb in f.reach_after(guard.bb, avoid_blocks=[lp["header"] for lp in lps]):
+                # the check sits in a loop that is not a `for` over a collection (a counter loop
+                # indexing the targets): the rule has no reader for what it traverses
+                raise AnalysisError("idiom not recognised: the duplicate-target check of %s runs in a loop that is not a `for` over the rule's targets" % f.id)
             if not tl:
                 ctx.viol((f.id, "duplicate-check-not-per-target"), "the duplicate check does not run for every target of every rule", i.where)
                 continue
